@@ -245,6 +245,8 @@ def to_py(ir):
         return "(%d.0/%d.0)" % (fr.numerator, fr.denominator) if fr.denominator != 1 else "(%d.0)" % fr.numerator
     if k == "v":
         return coq_ident(ir[1])
+    if k == "-" and ir[1][0] == "f" and ir[1][1] == "exp" and ir[2] == ("c", Fraction(1)):
+        return "math.expm1(%s)" % to_py(ir[1][2][0])
     if k in ("+", "-", "*", "/"):
         return "(%s %s %s)" % (to_py(ir[1]), k, to_py(ir[2]))
     if k == "neg":
@@ -252,6 +254,10 @@ def to_py(ir):
     if k == "powi":
         return "(%s ** %d)" % (to_py(ir[1]), ir[2])
     if k == "f":
+        # ln (1 + x) and exp x - 1 are rendered with the cancellation-free library functions (same real
+        # function, better float64 conditioning for tiny x; the sources use log1p / expm1 there)
+        if ir[1] == "ln" and ir[2][0][0] == "+" and ir[2][0][1] == ("c", Fraction(1)):
+            return "math.log1p(%s)" % to_py(ir[2][0][2])
         return "%s(%s)" % (PY_FUN[ir[1]], ", ".join(to_py(a) for a in ir[2]))
     if k == "free":
         return "%s(%s)" % (ir[1], ", ".join(to_py(a) for a in ir[2]))
